@@ -122,8 +122,10 @@ PROPS = {
                       "that answers false leaves line and cursor alone - faithful_kill) up to ONE remaining fact about LineBuffer::kill and "
                       "the ring: a non-character kill that answers true sets the last action to Kill. Its ring-level half is proved "
                       "(lbKill_go_bracket: a notification stream bracketed by start/stop_killing that contains a deletion the ring takes "
-                      "up leaves last action = Kill); what remains is C17_Open.killReports = KillReports, about LineBuffer::kill alone: "
-                      "the answer true comes with such a stream. The theorem is a "
+                      "up leaves last action = Kill), and so is the LineBuffer half (round 12, Lemmas/EditorKillReports.lean: killReports - for each "
+                      "of the 12 movements other than the two character movements the answer true comes with such a stream; a small calculus "
+                      "KSil / KHd / KRep / KRepAt over LM, the monad laws of LM for the arms whose continuation is inlined). Nothing about "
+                      "YankPop is left in C17_Open: what remains is the abstract J for Undo (undo, other, init ... insert). The theorem is a "
                       "proved reduction of 'the only panic is D43' to these obligations, not the unconditional statement. "
                       "Discharged by the result-tracking pass C17_next_cmd_returns (every command next_cmd returns, in both modes: a "
                       "ReplaceChar count is <= 65535, and in vi mode it is never YankPop - C17_vi_never_yankPop for the default "
@@ -489,8 +491,7 @@ PROPS["C02"] = {
             "the pty harness cuts the output where the Event::Any handler runs (marker written from inside the handler)",
             "validators' messages, list completion, incremental-search prompts, the external printer, tabs and control characters in the "
             "text are outside this check (not in the property's quantifier, or other properties)"],
-        "unproved": ["C02_popUndoWF_statement: whenever yank_pop / Changeset::undo return, the cursor of the line is on a character boundary "
-                     "(statements about Rl/LineBuffer.lean and Rl/Undo.lean alone; both operations slice and panic off a boundary)"],
+        "unproved": [],
         "level_text": "Lean theorems, for every lawful segmenter, width table and terminal width >= 2, over prompts/lines/hints made of "
                       "line breaks and printable clusters of width 0/1/2: the grapheme loop of calculate_position simulates the cursor "
                       "of a VT100-style terminal (deferred wrap, early wrap of wide characters, zero-width joins); positions computed "
@@ -528,8 +529,14 @@ PROPS["C02"] = {
                       "rendering primitive, both key maps, every command of execute, circular and listing completion, incremental search, the dispatch "
                       "loop, the main loop and the initial text (Rl/Lemmas/RenderLogBd*.lean; C03 totality theorems and L's lmsafe_* per operation, C09 "
                       "for search positions; replace slices at both ends, so no completer contract is needed). The two final theorems take, instead "
-                      "of LogBd: indentSize <= 255, YankPopWF and UndoWF (yank_pop / the undo log leave the cursor on a boundary whenever they return - "
-                      "C02_popUndoWF_statement, not proved). Every command of execute (pres_execute), listing and circular completion and - since "
+                      "of LogBd, only indentSize <= 255: that yank_pop / the undo log leave the cursor on a boundary whenever they return is the "
+                      "theorem C02_popUndoWF (Rl/Lemmas/PopUndoWF.lean, round 6); C02_logBd_statement (the round-4 target with C17's helper "
+                      "contracts) is the corollary C02_logBd_with_contracts. The text half at character level (round 6, "
+                      "Rl/Lemmas/RenderLogAlpha.lean): for an alphabet A over which every text segments into PlainG clusters (AlphaPlain S R A, a "
+                      "hypothesis on segmenter, width table and alphabet) LogPlain follows from LogAlpha A - every logged prompt, line and hint is "
+                      "written over A, no segmenter in it (logPlain_of_alpha; C02_editor_shows_alpha). That the characters reaching the screen are "
+                      "those of the inputs (a closure invariant over line, saved line, kill ring, undo log through every line-buffer operation, and "
+                      "which characters the key maps put into commands) is not proved: LogAlpha stays a hypothesis on the produced log. Every command of execute (pres_execute), listing and circular completion and - since "
                       "the repair of D42 - incremental search (est_searchLoop) are lifted. "
                       "The differential check covers the real Editor::readline "
                       "on a pty at widths 2..40 and 80, its output interpreted by the Lean terminal emulator at every Event::Any "
